@@ -60,7 +60,8 @@ def build_case(rng, ncat, nnum, levels, terms_idx=None, exhaustive=False):
         else:
             fexpr[c] = f"C({c}, {k})"
     for v in nums:
-        fexpr[v] = rng.choice([v, v, f"{{{v}*2}}", f"I({v}**3)"])
+        # numeric factors incl. multi-column ones and one that itself spans the intercept (full B-spline basis)
+        fexpr[v] = rng.choice([v, v, f"{{{v}*2}}", f"I({v}**3)", f"poly({v}, 2)", f"bs({v}, df=3)", f"bs({v}, df=4, include_intercept=True)"])
     vars_ = cats + nums
     lattice = [list(c) for r in range(1, len(vars_) + 1) for c in itertools.combinations(vars_, r)]
     if terms_idx is None:
@@ -77,14 +78,19 @@ def build_case(rng, ncat, nnum, levels, terms_idx=None, exhaustive=False):
     }
 
 
+def full_cols_of(case) -> int:
+    lv, fx = case["levels"], case["fexpr"]
+    width = {v: (4 if "include_intercept" in fx[v] else 3 if "bs(" in fx[v] else 2 if "poly(" in fx[v] else 1) for v in case["nums"]}
+    return sum(int(np.prod([len(lv[v]) if v in lv else width[v] for v in t])) for t in case["terms"]) + 1
+
+
 def gen_case(rng: random.Random, tier: str) -> dict:
     while True:
         ncat = rng.randint(1, 4)
         nnum = rng.randint(0, 3)
         levels = [rng.choice([1, 2, 2, 3, 3, 4]) for _ in range(ncat)]
         case = build_case(rng, ncat, nnum, levels)
-        full_cols = sum(int(np.prod([len(case["levels"][v]) for v in t if v in case["levels"]] or [1])) for t in case["terms"]) + 1
-        if full_cols <= 160:
+        if full_cols_of(case) <= 160:
             return case
 
 
@@ -112,7 +118,7 @@ def design(case):
     rng = np.random.default_rng(case["seed"])
     cats, nums, lv = case["cats"], case["nums"], case["levels"]
     cross = list(itertools.product(*[lv[c] for c in cats])) or [()]
-    full_cols = sum(int(np.prod([len(lv[v]) for v in t if v in lv] or [1])) for t in case["terms"]) + 1
+    full_cols = full_cols_of(case)
     reps = max(2, -(-4 * full_cols // len(cross)))
     rows = cross * reps
     data = {c: pd.Categorical([r[i] for r in rows], categories=lv[c]) for i, c in enumerate(cats)}
